@@ -7,8 +7,8 @@
    pass was given.  Hence the number a plain "(" takes in the main pass is the number the pre-scan noted for
    it, a key of the capture table: the hypothesis [Hac] of Proofs/ParserOkMain.v.
 
-   Not ECMAScript (there a shorthand class in range position, [a-\d], leaves the scan-only class scanner with a
-   stale "in range" flag; no counterexample known, no proof).  Oracle tie: a word character is none of
+   Every option word (under ECMAScript the pre-scan notes no names, so \\k is read the same way by both passes).
+   Oracle tie: a word character is none of
    ! # ' ( ) - < = > [ \ and the ASCII digits are word characters. *)
 From Coq Require Import ZifyBool.
 From Verif Require Import Base.Prelude Gen.ParseLitGen Model.Escape Model.ParseLit Model.GroupMap Model.CharClass
@@ -241,12 +241,8 @@ Section ClassAgree.
 Variable recF recS : cs_rec.
 Variable a b : Z.
 Hypothesis Hab : oeqv a b.
-Hypothesis HE : useE a = false.
 Hypothesis HR : forall ng q cp ir fi its sb its' sb',
   agr (recF false ng q cp ir fi its sb) (recS true ng q cp ir fi its' sb').
-
-Lemma HEb : useE b = false.
-Proof. rewrite <- (oeqv_useE _ _ Hab). exact HE. Qed.
 
 Lemma cs_next_agr ng q cp ir its sb its' sb' :
   agr (cs_next recF false ng q cp ir its sb) (cs_next recS true ng q cp ir its' sb').
@@ -291,7 +287,7 @@ Lemma cs_shorthand_agr ng chprev inrange sub sub' it q its its' :
       (cs_shorthand recS true b ng chprev inrange sub' it q its').
 Proof.
   unfold cs_shorthand. intros syn qf H. destruct inrange.
-  - rewrite HE in H. discriminate.
+  - destruct (negb (useE a)); [discriminate|]. eapply cs_next_agr. exact H.
   - eapply cs_next_agr. exact H.
 Qed.
 
@@ -299,10 +295,17 @@ Lemma cs_prop_agr ng chprev inrange sub sub' c2 p2 its its' :
   agr (cs_prop is_word_char cat_name recF false a ng chprev inrange sub c2 p2 its)
       (cs_prop is_word_char cat_name recS true b ng chprev inrange sub' c2 p2 its').
 Proof.
-  unfold cs_prop. rewrite HE, HEb. cbn [andb]. rewrite (parse_property_oeqv a b p2 Hab).
-  intros syn qf H.
-  destruct (parse_property is_word_char cat_name b p2) as [[id q]|e q| | |]; cbn [pbind] in *; try discriminate.
-  destruct inrange; [discriminate|]. eapply cs_next_agr. exact H.
+  unfold cs_prop. rewrite <- (oeqv_useE _ _ Hab), <- (oeqv_useU _ _ Hab).
+  destruct (useE a && negb (useU a) && (c2 =? 80) && inrange); [intros syn qf H; discriminate|].
+  destruct (useE a && negb (useU a) && (c2 =? 112)).
+  - intros syn qf H. destruct inrange.
+    + destruct (112 <? chprev); [discriminate|]. eapply cs_next_agr. exact H.
+    + destruct (longer p2 1 && hd_is p2 45 && negb (nth_is 1 p2 93)).
+      * cbv zeta in H |- *. destruct (nth 1 p2 0 <? 112); [discriminate|]. eapply cs_next_agr. exact H.
+      * eapply cs_next_agr. exact H.
+  - rewrite (parse_property_oeqv a b p2 Hab). intros syn qf H.
+    destruct (parse_property is_word_char cat_name b p2) as [[id q]|e q| | |]; cbn [pbind] in *; try discriminate.
+    destruct inrange; [discriminate|]. eapply cs_next_agr. exact H.
 Qed.
 
 Lemma cs_posix_agr ng chprev inrange first sub sub' p1 p2 its its' :
@@ -326,7 +329,7 @@ Lemma cs_body_agr ng chprev inrange first sub sub' p its its' :
 Proof.
   unfold cs_body. destruct p as [|ch p1]; [intros syn qf H; discriminate|].
   destruct (ch =? 93).
-  { rewrite HE, HEb, !orb_false_r. destruct (negb first).
+  { rewrite <- (oeqv_useE _ _ Hab). destruct (negb first || useE a).
     - intros syn qf H. inversion H; subst. eexists. reflexivity.
     - apply cs_generic_agr. }
   destruct (ch =? 92).
@@ -344,23 +347,23 @@ Qed.
 
 End ClassAgree.
 
-Lemma cs_loop_agr fuel : forall a b, oeqv a b -> useE a = false ->
+Lemma cs_loop_agr fuel : forall a b, oeqv a b ->
   forall ng p chprev inrange first its sb its' sb',
   agr (cs_loop is_word_char cat_name fuel false a ng p chprev inrange first its sb)
       (cs_loop is_word_char cat_name fuel true b ng p chprev inrange first its' sb').
 Proof.
-  induction fuel as [|f IH]; intros a b Hab HE ng p chprev inrange first its sb its' sb'; cbn [cs_loop].
+  induction fuel as [|f IH]; intros a b Hab ng p chprev inrange first its sb its' sb'; cbn [cs_loop].
   - intros syn q H. discriminate.
   - apply (cs_body_agr (fun so' ng' q cp ir fi its0 sb0 => cs_loop is_word_char cat_name f so' a ng' q cp ir fi its0 sb0)
-                       (fun so' ng' q cp ir fi its0 sb0 => cs_loop is_word_char cat_name f so' b ng' q cp ir fi its0 sb0) a b Hab HE).
+                       (fun so' ng' q cp ir fi its0 sb0 => cs_loop is_word_char cat_name f so' b ng' q cp ir fi its0 sb0) a b Hab).
     intros ng0 q cp ir fi its0 sb0 its0' sb0'. apply IH; assumption.
 Qed.
 
-Lemma cs_scan_agr fuel a b p syn q : oeqv a b -> useE a = false ->
+Lemma cs_scan_agr fuel a b p syn q : oeqv a b ->
   cs_scan is_word_char cat_name fuel false a p = POk (syn, q) ->
   exists syn', cs_scan is_word_char cat_name fuel true b p = POk (syn', q).
 Proof.
-  intros Hab HE. unfold cs_scan. destruct (caret p) as [ng p0]. apply cs_loop_agr; assumption.
+  intros Hab. unfold cs_scan. destruct (caret p) as [ng p0]. apply cs_loop_agr; assumption.
 Qed.
 
 
@@ -393,7 +396,8 @@ Section BsAgree.
 Variable tbF tbS : captab.
 Variable a b : Z.
 Hypothesis Hab : oeqv a b.
-Hypothesis HE : useE a = false.
+(* under ECMAScript "\k" is a back-reference only when the table has names: both tables agree on that *)
+Hypothesis HN : useE a = true -> ct_named tbF = ct_named tbS.
 Variable x : bool.
 
 Local Notation char_code := (char_code is_word_char to_lower simple_fold cat_in).
@@ -417,7 +421,7 @@ Proof.
     destruct (hd_is r1 close); [|apply char_code_bsagr].
     intros b0 q' H. destruct (ct_slot tbF capnum); [|discriminate]. inversion H; subst.
     exists (tl r1). split; [destruct (ct_slot tbS capnum); reflexivity | apply tskip_refl].
-  - rewrite <- (oeqv_useE _ _ Hab), HE.
+  - rewrite <- (oeqv_useE _ _ Hab). destruct (useE a); [intros b0 q' H; discriminate|].
     destruct (scan_word is_word_char (ch :: cur')) as [nm r1].
     destruct (negb (match nm with [] => true | _ => false end) && hd_is r1 close).
     + intros b0 q' H. destruct (ct_name tbF nm); [|discriminate]. inversion H; subst.
@@ -444,18 +448,20 @@ Qed.
 Lemma basic_backslash_bsagr p : bsagr x (basic_backslash false tbF a p) (basic_backslash true tbS b p).
 Proof.
   unfold Parser.basic_backslash. destruct p as [|ch p1]; [intros b0 q' H; discriminate|].
-  rewrite <- (oeqv_useE _ _ Hab), HE. cbn [negb orb andb].
-  destruct (ch =? 107).
-  { cbn [andb]. destruct p1 as [|c2 p2]; [intros b0 q' H; discriminate|].
-    destruct (negb ((c2 =? 60) || (c2 =? 39))); [intros b0 q' H; discriminate|].
+  rewrite <- (oeqv_useE _ _ Hab), <- (oeqv_useU _ _ Hab).
+  assert (KS : negb (useE a) || useU a || ct_named tbS = negb (useE a) || useU a || ct_named tbF).
+  { destruct (useE a) eqn:EE; [rewrite (HN eq_refl); reflexivity | reflexivity]. }
+  rewrite KS.
+  destruct ((ch =? 107) && (negb (useE a) || useU a || ct_named tbF)).
+  { destruct p1 as [|c2 p2]; [intros b0 q' H; discriminate|].
+    destruct (negb ((c2 =? 60) || (negb (useE a) && (c2 =? 39)))); [intros b0 q' H; discriminate|].
     destruct p2 as [|c3 p3]; [intros b0 q' H; discriminate|]. apply name_or_num_bsagr. }
-  cbn [andb].
-  destruct (((ch =? 60) || (ch =? 39)) && longer (ch :: p1) 1); [apply name_or_num_bsagr|].
+  destruct (negb (useE a) && ((ch =? 60) || (ch =? 39)) && longer (ch :: p1) 1); [apply name_or_num_bsagr|].
   destruct ((49 <=? ch) && (ch <=? 57)) eqn:Ed; [|apply char_code_bsagr].
   unfold decimal, of_res. destruct (scan_decimal 0 (ch :: p1)) as [[capnum q]|e|w|] eqn:SD; cbn [pbind]; try (intros b0 q' H; discriminate).
   intros b0 q' H. exists q. split; [reflexivity|].
   destruct (ct_slot tbF capnum); [inversion H; subst; apply tskip_refl|].
-  destruct (capnum <=? 9); [discriminate|]. cbn [andb] in H.
+  destruct ((capnum <=? 9) && negb (useE a)); [discriminate|].
   unfold Parser.char_code in H.
   destruct (char_escape is_word_char a (ch :: p1)) as [[c q2]|e q2| | |] eqn:CE; cbn [pbind] in H; try discriminate.
   destruct (mk_node_ch simple_fold cat_in T_One a (if useI a then to_lower c else c)); cbn [pbind] in H; try discriminate.
@@ -472,7 +478,7 @@ Proof.
   { intros b0 q' H. destruct (mk_node_set simple_fold cat_in T_Set a (class_of_letter a ch)); cbn [pbind] in H; try discriminate.
     inversion H; subst. exists q'. split; [reflexivity | apply tskip_refl]. }
   destruct ((ch =? 112) || (ch =? 80)); [|apply basic_backslash_bsagr].
-  rewrite <- (oeqv_useE _ _ Hab), HE. cbn [andb].
+  rewrite <- (oeqv_useE _ _ Hab), <- (oeqv_useU _ _ Hab). destruct (useE a && negb (useU a)); [apply basic_backslash_bsagr|].
   rewrite (parse_property_oeqv a b p1 Hab). intros b0 q' H.
   destruct (parse_property is_word_char cat_name b p1) as [[id q]|e q| | |]; cbn [pbind] in *; try discriminate.
   match type of H with pbind ?m _ = _ => destruct m end; cbn [pbind] in H; try discriminate.
@@ -660,6 +666,13 @@ Proof.
   - intros o s c c' W E. pose proof (note_name_pr_ok mco o s c W) as N. rewrite E in N. exact N.
 Qed.
 
+(* ECMAScript: no names, the numbers are 0 .. autocap-1 *)
+Lemma psteps_EN cs p cs' q : psteps cs p cs' q -> Eall cs -> EN (cs_c cs) -> Eall cs' /\ EN (cs_c cs').
+Proof.
+  induction 1 as [|cs ch p1 cs1 q1 cs' q E _ IH]; [auto|]. intros HE HN.
+  destruct (prescan_step_E is_word_char to_lower simple_fold cat_in cat_name mco cs ch p1 cs1 q1 HE HN E) as [E' N']. auto.
+Qed.
+
 Definition near (x : bool) (p q : list Z) : Prop := tskip x p q \/ tskip x q p.
 
 Lemma reach_near cs p q : near (useX (cs_o cs)) p q -> (reach cs p <-> reach cs q).
@@ -724,7 +737,6 @@ Section OpenSim.
 Variable cs : cst.
 Variable o a : Z.
 Hypothesis Ho : oeqv o (cs_o cs).
-Hypothesis HE : useE o = false.
 Hypothesis Ha : c_autocap (cs_c cs) = a.
 Hypothesis Hci : cinv mco (cs_c cs).
 
@@ -732,8 +744,8 @@ Local Notation st1 := (mkCS (cs_c cs) (cs_o cs) (cs_o cs :: cs_os cs) (cs_ign cs
 Local Notation tbm := (captab_main tb).
 Local Notation xx := (useX (cs_o cs)).
 
-Lemma HEb' : useE (cs_o cs) = false.
-Proof. rewrite <- (oeqv_useE _ _ Ho). exact HE. Qed.
+Lemma HEb' : useE o = false -> useE (cs_o cs) = false.
+Proof. intros HE. rewrite <- (oeqv_useE _ _ Ho). exact HE. Qed.
 
 Lemma consume_minus1 : consume_slot mco (-1) a = a.
 Proof.
@@ -813,7 +825,7 @@ Lemma named_sim close cur g v' q' :
   named_post (prescan_named is_word_char mco st1 cur) v' q' /\ g <> None.
 Proof.
   intros Hc E R. unfold Parser.group_name in E. destruct cur as [|c2 cur']; [discriminate|].
-  cbn [gv_o gv_ign gv_autocap] in E. rewrite HE in E.
+  cbn [gv_o gv_ign gv_autocap] in E. destruct (useE o) eqn:HE; [discriminate|]. pose proof (HEb' HE) as HEb.
   set (cur := c2 :: cur') in *.
   (* the end of the main pass' scan, once the first part (capnum, proceed, q) is known *)
   assert (FIN : forall capnum proceed q,
@@ -850,7 +862,7 @@ Proof.
     injection H as <- <- <-. cbn [gv_o gv_ign gv_autocap].
     split; [|repeat split; discriminate].
     eapply (group_name_tail close capnum proceed q _ uncapnum q3 Hc ER2 eq_refl). apply andb_prop in EC. tauto. }
-  unfold Parser.prescan_named, cur. cbv iota. fold cur. cbn [cs_o]. rewrite HEb'.
+  unfold Parser.prescan_named, cur. cbv iota. fold cur. cbn [cs_o]. rewrite HEb.
   destruct (ParseLit.is_digit c2) eqn:Edig.
   - (* digits *)
     destruct (decimal cur) as [[n q]|e q| | |] eqn:D; cbn [pbind] in E; try discriminate.
@@ -871,9 +883,9 @@ Proof.
       rewrite (HD c2 D9). cbn [negb andb]. rewrite D9. cbn [pbind].
       pose proof (decimal_nonzero _ _ _ _ D9 D) as NZ.
       destruct mco_cases as [Em|Em].
-      * destruct (note_name_pr_total (cs_o cs) (itoa n) (cs_c cs) HEb') as [c' N].
+      * destruct (note_name_pr_total (cs_o cs) (itoa n) (cs_c cs) HEb) as [c' N].
         assert (PN : prescan_named is_word_char mco st1 cur = POk (set_cs_ign (set_cs_c st1 c') false, q)).
-        { unfold Parser.prescan_named, cur. cbv iota. fold cur. cbn [cs_o]. rewrite HEb', E48, (HD c2 D9). cbn [negb andb].
+        { unfold Parser.prescan_named, cur. cbv iota. fold cur. cbn [cs_o]. rewrite HEb, E48, (HD c2 D9). cbn [negb andb].
           rewrite D9, D. cbn [pbind]. rewrite Em. cbn [cs_c]. rewrite <- Em, N. reflexivity. }
         rewrite Em. cbn [cs_c]. rewrite <- Em, N. cbn [pbind].
         eexists _, q. split; [reflexivity|]. split; [exact T|].
@@ -892,10 +904,10 @@ Proof.
       assert (N48 : (c2 =? 48) = false) by (unfold ParseLit.is_digit in Edig; lia).
       assert (N9 : (49 <=? c2) && (c2 <=? 57) = false) by (unfold ParseLit.is_digit in Edig; lia).
       rewrite N48. cbn [negb andb]. rewrite N9.
-      destruct (note_name_pr_total (cs_o cs) nm (cs_c cs) HEb') as [c' N]. cbn [cs_c]. rewrite N. cbn [pbind].
+      destruct (note_name_pr_total (cs_o cs) nm (cs_c cs) HEb) as [c' N]. cbn [cs_c]. rewrite N. cbn [pbind].
       eexists _, q. split; [reflexivity|]. split; [exact T|].
       cbn [set_cs_ign set_cs_c cs_o cs_os cs_ign cs_c]. repeat split; auto.
-      rewrite F3. apply (named_state nm c' q N). apply R. unfold Parser.prescan_named, cur. cbv iota. fold cur. cbn [cs_o]. rewrite HEb', N48, Ew. cbn [negb andb].
+      rewrite F3. apply (named_state nm c' q N). apply R. unfold Parser.prescan_named, cur. cbv iota. fold cur. cbn [cs_o]. rewrite HEb, N48, Ew. cbn [negb andb].
       rewrite N9, SW. cbn [cs_c]. rewrite N. reflexivity.
     + destruct (c2 =? 45) eqn:E45; [|discriminate]. cbn [pbind] in E.
       destruct (FIN _ _ _ E) as [T [F1 [F2 [F3 F4]]]]. split; [|exact F4].
@@ -912,7 +924,7 @@ Proof.
   destruct (longer p2 2) eqn:L2; [|discriminate]. cbn [negb] in E.
   destruct (hd_is p2 60) eqn:H60; [|discriminate]. cbn [negb] in E.
   destruct p2 as [|c0 [|c1 p4]]; try discriminate. cbn [nth tl] in *.
-  destruct (is_word_char c1) eqn:Ew; [|discriminate]. rewrite HE in E.
+  destruct (is_word_char c1) eqn:Ew; [|discriminate]. destruct (useE o) eqn:HE; [discriminate|]. pose proof (HEb' HE) as HEb.
   destruct (scan_word is_word_char (c1 :: p4)) as [nm q] eqn:SW.
   pose proof (scan_word_tskip xx (c1 :: p4)) as TW. rewrite SW in TW. cbn [snd] in TW.
   destruct (hd_is_not q 62) eqn:HN; [discriminate|].
@@ -920,11 +932,11 @@ Proof.
   injection E as <- <- <-. split; [reflexivity|]. split; [reflexivity|]. split; [|discriminate].
   assert (TQ : tskip xx q (tl q)).
   { apply tskip_tl with (c := 62); [apply andb_prop in EC; tauto | apply ptriv_intro; intros; lia]. }
-  unfold Parser.prescan_pyname. rewrite Ew. cbn [cs_o]. rewrite HEb', SW. cbn [cs_c].
-  destruct (note_name_pr_total (cs_o cs) nm (cs_c cs) HEb') as [c' N]. rewrite N. cbn [pbind].
+  unfold Parser.prescan_pyname. rewrite Ew. cbn [cs_o]. rewrite HEb, SW. cbn [cs_c].
+  destruct (note_name_pr_total (cs_o cs) nm (cs_c cs) HEb) as [c' N]. rewrite N. cbn [pbind].
   eexists _, q. split; [reflexivity|]. split; [exact TQ|].
   cbn [set_cs_ign set_cs_c cs_o cs_os cs_ign cs_c gv_o gv_ign gv_autocap]. repeat split; auto.
-  apply (named_state nm c' q N). apply R. unfold Parser.prescan_pyname. rewrite Ew. cbn [cs_o]. rewrite HEb', SW. cbn [cs_c]. rewrite N. reflexivity.
+  apply (named_state nm c' q N). apply R. unfold Parser.prescan_pyname. rewrite Ew. cbn [cs_o]. rewrite HEb, SW. cbn [cs_c]. rewrite N. reflexivity.
 Qed.
 
 Lemma open_post_one ign p3 g v' q' cs1 q1 :
@@ -970,7 +982,7 @@ Proof.
         destruct (hd_is q 41) eqn:H41; [|discriminate]. destruct (ct_slot tbm n); [|discriminate]. inversion EA; subst.
         exists q. split; [eapply decimal_tskip; exact D|]. repeat split; auto; try discriminate.
         cbn [hd_is]. unfold ParseLit.is_digit in Ed. lia.
-      - destruct (is_word_char c) eqn:Ew; [|discriminate]. rewrite HE in EA.
+      - destruct (is_word_char c) eqn:Ew; [|discriminate]. destruct (useE o) eqn:HE; [discriminate|].
         pose proof (scan_word_tskip xx (c :: p2')) as TW. destruct (scan_word is_word_char (c :: p2')) as [nm q]. cbn [snd] in TW.
         destruct (ct_name tbm nm); [|discriminate]. destruct (hd_is q 41) eqn:H41; [|discriminate]. inversion EA; subst.
         exists q. split; [exact TW|]. repeat split; auto; try discriminate.
@@ -1092,10 +1104,11 @@ Proof.
     - (* lookbehind *)
       destruct ((if ch =? 39 then 39 else 62) =? 39); [discriminate|]. injection E as <- <- <-.
       assert (PN : prescan_named is_word_char mco st1 (c2 :: p6) = POk (set_cs_ign st1 false, c2 :: p6)).
-      { unfold Parser.prescan_named. cbn [cs_o]. rewrite HEb'.
-        assert (NW : is_word_char c2 = false).
-        { destruct (is_word_char c2) eqn:Ew; [|reflexivity]. apply HW in Ew. unfold zmem in Ew. cbn [existsb] in Ew. lia. }
-        rewrite NW, andb_false_r. reflexivity. }
+      { unfold Parser.prescan_named. cbn [cs_o]. destruct (useE (cs_o cs)).
+        - assert (CC : (c2 =? 61) || (c2 =? 33) || (c2 =? 48) = true) by lia. rewrite CC. reflexivity.
+        - assert (NW : is_word_char c2 = false).
+          { destruct (is_word_char c2) eqn:Ew; [|reflexivity]. apply HW in Ew. unfold zmem in Ew. cbn [existsb] in Ew. lia. }
+          rewrite NW, andb_false_r. reflexivity. }
       rewrite PN in NAMED.
       eapply open_post_one; [exact NAMED | | | reflexivity | exact Ha | reflexivity | intros H; discriminate | intros H; discriminate].
       + left. apply tskip_cons. apply ptriv_intro; intros; lia.
@@ -1191,21 +1204,34 @@ Qed.
 (* ---------------------------------------------------------------- the simulation *)
 Variable caps : list Z.
 Hypothesis HF1 : incl (c_caps (cs_c cstF)) caps.
+(* the ECMAScript bit of the option word the parse started with *)
+Variable e0 : bool.
+Hypothesis HF3 : e0 = true -> no_names tb = true.
 
 Record Sim (cs : cst) (st : mst) (p : list Z) : Prop := mkSim {
   sm_o : oeqv (ms_o st) (cs_o cs);
   sm_os : Forall2 oeqv (ms_os st) (cs_os cs);
   sm_ign : cs_ign cs = ms_ign st;
   sm_auto : c_autocap (cs_c cs) = ms_autocap st;
-  sm_E : useE (ms_o st) = false;
-  sm_Es : Forall (fun o => useE o = false) (ms_os st);
+  sm_E : useE (ms_o st) = e0;
+  sm_Es : Forall (fun o => useE o = e0) (ms_os st);
   sm_cond : ms_ign st = true -> hd_is p 40 = true /\ starts_qhash (tl p) = false;
   sm_cinv : cinv mco (cs_c cs);
-  sm_reach : reach cs p }.
+  sm_reach : reach cs p;
+  sm_nn : e0 = true -> EN (cs_c cs) }.
+
+Lemma Sim_Eall cs st p : Sim cs st p -> e0 = true -> Eall cs.
+Proof.
+  intros S He. split.
+  - rewrite <- (oeqv_useE _ _ (sm_o _ _ _ S)), (sm_E _ _ _ S). exact He.
+  - pose proof (sm_os _ _ _ S) as F2. pose proof (sm_Es _ _ _ S) as F1. revert F1.
+    induction F2 as [|a b la lb Hab _ IH]; intros F1; [constructor|].
+    inversion F1; subst. constructor; [rewrite <- (oeqv_useE _ _ Hab); congruence | apply IH; assumption].
+Qed.
 
 Lemma Sim_move cs st p st' q : Sim cs st p -> ctl st' = ctl st -> ms_ign st = false -> (reach cs p <-> reach cs q) -> Sim cs st' q.
 Proof.
-  intros [S1 S2 S3 S4 S5 S6 S7 S8 S9] C I R. unfold ctl in C. injection C as C1 C2 C3 C4.
+  intros [S1 S2 S3 S4 S5 S6 S7 S8 S9 S10] C I R. unfold ctl in C. injection C as C1 C2 C3 C4.
   constructor; rewrite ?C1, ?C2, ?C3, ?C4; auto.
   - intros H. congruence.
   - apply R. exact S9.
@@ -1314,7 +1340,8 @@ Proof.
     - rewrite K3. exact (sm_ign _ _ _ S).
     - rewrite K4. exact (sm_auto _ _ _ S).
     - rewrite K3, I. discriminate.
-    - exact (sm_cinv _ _ _ S). }
+    - exact (sm_cinv _ _ _ S).
+    - exact (sm_nn _ _ _ S). }
   destruct (ms_unit st4) as [u|] eqn:EU.
   - destruct (after_unit st4 p3) as [[[st5 q5] wq]|e q0| | |] eqn:EA; cbn [pbind] in E; try discriminate.
     inversion E; subst. exists q5, wq, cs'. split; [reflexivity|].
@@ -1351,7 +1378,7 @@ Proof.
     (* the pre-scan: "(" pushes, "?P=name" are plain characters, ")" pops *)
     destruct p3 as [|c0 [|c1 [|c2 p6]]]; try (rewrite ?andb_false_r in PY; discriminate).
     cbn [hd_is nth_is skipn] in PY. assert (c0 = 63) by lia. assert (c1 = 80) by lia. assert (c2 = 61) by lia. subst c0 c1 c2.
-    cbn [skipn] in EP. unfold Parser.python_backref in EP. destruct p6 as [|ch p7]; [discriminate|]. rewrite SE in EP.
+    cbn [skipn] in EP. unfold Parser.python_backref in EP. destruct p6 as [|ch p7]; [discriminate|]. destruct (useE (ms_o st)); [discriminate|].
     destruct (negb (is_word_char ch)); [discriminate|].
     pose proof (scan_word_tskip (useX (cs_o cs)) (ch :: p7)) as TW. destruct (scan_word is_word_char (ch :: p7)) as [nm q0]. cbn [snd] in TW.
     destruct (negb (is_nil nm) && hd_is q0 41) eqn:EH; [|discriminate]. destruct (ct_name tbm nm); [|discriminate]. inversion EP; subst.
@@ -1376,7 +1403,7 @@ Proof.
   (* scanGroupOpen *)
   destruct (Parser.group_open is_word_char tbm mco (n_t (ms_group st1)) (mkGV (ms_o st) (ms_ign st) (ms_autocap st)) p3) as [[[g v] q]|e q| | |] eqn:EG;
     cbn [pbind] in E; try discriminate.
-  destruct (open_sim cs (ms_o st) (ms_autocap st) So SE (sm_auto _ _ _ S) (sm_cinv _ _ _ S) _ (ms_ign st) p3 g v q (sm_ign _ _ _ S) R Q EG)
+  destruct (open_sim cs (ms_o st) (ms_autocap st) So (sm_auto _ _ _ S) (sm_cinv _ _ _ S) _ (ms_ign st) p3 g v q (sm_ign _ _ _ S) R Q EG)
     as [[D1 [D2 [D3 D4]]] | [[cs' [qp [PS [NR [P1 [P2 [P3 [P4 [P5 P6]]]]]]]]] PL]].
   - left. subst q. destruct g as [gn|]; [|congruence]. inversion E; subst. split; [reflexivity|]. split; [exact D1 | cbn; exact U].
   - right.
@@ -1390,11 +1417,13 @@ Proof.
       * rewrite GE. exact SE.
       * rewrite C2. constructor; [exact SE | exact (sm_Es _ _ _ S)].
       * eapply psteps_cinv; [exact PS | exact (sm_cinv _ _ _ S)].
+      * intros He. exact (proj2 (psteps_EN _ _ _ _ PS (Sim_Eall _ _ _ S He) (sm_nn _ _ _ S He))).
     + constructor; cbn [ms_o ms_os ms_ign ms_autocap]; auto.
       * rewrite P4, C2. exact (sm_os _ _ _ S).
       * rewrite GE. exact SE.
       * rewrite C2. exact (sm_Es _ _ _ S).
       * eapply psteps_cinv; [exact PS | exact (sm_cinv _ _ _ S)].
+      * intros He. exact (proj2 (psteps_EN _ _ _ _ PS (Sim_Eall _ _ _ S He) (sm_nn _ _ _ S He))).
 Qed.
 
 
@@ -1463,7 +1492,7 @@ Proof.
     destruct (Parser.cs_scan is_word_char cat_name (S (length p3)) false (ms_o st) p3) as [[syn q]|e q| | |] eqn:ECS; cbn [pbind] in E; try discriminate.
     destruct (Parser.class_node to_lower simple_fold cat_in (ms_o st) syn) as [x| | | |]; cbn [pbind] in E; try discriminate.
     apply (UNIT x q eq_refl); [|exact E].
-    destruct (cs_scan_agr (S (length p3)) (ms_o st) (cs_o cs) p3 syn q So SE ECS) as [syn' ES].
+    destruct (cs_scan_agr (S (length p3)) (ms_o st) (cs_o cs) p3 syn q So ECS) as [syn' ES].
     apply reach_cons in R2. destruct R2 as [st'' [qq [EST RR]]].
     unfold Parser.prescan_step in EST. cbn [Z.eqb Pos.eqb] in EST. rewrite ES in EST. cbn [ignore_err pbind] in EST. inversion EST; subst. exact RR. }
   destruct (ch =? 40) eqn:K2.
@@ -1489,7 +1518,9 @@ Proof.
     destruct (Parser.scan_backslash_full is_word_char to_lower simple_fold cat_in cat_name false tbm (ms_o st) p3) as [[b0 q']|e q| | |] eqn:EB; cbn [pbind] in E; try discriminate.
     destruct b0 as [x|]; [|discriminate].
     apply (UNIT x q' eq_refl); [|exact E].
-    destruct (scan_backslash_full_bsagr tbm (captab_pre (cs_c cs)) (ms_o st) (cs_o cs) So SE (useX (cs_o cs)) p3 (BNode x) q' EB) as [q [EI T]].
+    assert (HN : useE (ms_o st) = true -> ct_named tbm = ct_named (captab_pre (cs_c cs))).
+    { intros He. rewrite SE in He. destruct (sm_nn _ _ _ SM He) as [N _]. cbn [captab_main captab_pre ct_named]. rewrite N, (HF3 He). reflexivity. }
+    destruct (scan_backslash_full_bsagr tbm (captab_pre (cs_c cs)) (ms_o st) (cs_o cs) So HN (useX (cs_o cs)) p3 (BNode x) q' EB) as [q [EI T]].
     apply (reach_tskip cs q' q T).
     apply reach_cons in R2. destruct R2 as [st'' [qq [EST RR]]].
     unfold Parser.prescan_step in EST. cbn [Z.eqb Pos.eqb] in EST.
@@ -1566,13 +1597,13 @@ Hypothesis HD : forall c, (49 <=? c) && (c <=? 57) = true -> is_word_char c = tr
 
 Local Notation parse := (parse is_word_char to_lower simple_fold participates cat_in cat_name).
 
-(* Not ECMAScript; Captop below MaxInt32 (no group numbered 2^31-1, fewer than 2^31-1 groups). *)
+(* Every option word.  Captop below MaxInt32 (no group numbered 2^31-1, fewer than 2^31-1 groups). *)
 Theorem parse_tree_wf o mco_flag p t caps captop :
-  useE o = false -> captop < maxint32 ->
+  captop < maxint32 ->
   parse o mco_flag p = Ok (PR_Tree t caps captop) ->
   wf (fun k => zmem k caps) t.
 Proof.
-  intros HE HT E. unfold Parser.parse in E.
+  intros HT E. unfold Parser.parse in E.
   destruct (negb pl_bounds_ok); [discriminate|].
   destruct (negb (forallb (fun c => 0 <=? c) p)); [discriminate|].
   set (mco := mco_flag || useE o || useRE2 o) in *.
@@ -1600,14 +1631,17 @@ Proof.
   assert (I0 : minv st0).
   { split; [|reflexivity]. constructor; cbn; auto; (split; [constructor | reflexivity]). }
   assert (O0 : oinv (fun k => zmem k (t_caps tb)) st0) by (apply oinv_init; apply zmem_In; exact TZ).
-  assert (S0 : exists cs, Sim is_word_char to_lower simple_fold cat_in cat_name mco stF cs st0 p).
-  { exists (mkCS c_init o [] false). constructor; cbn; auto.
+  assert (HF3 : useE o = true -> no_names tb = true).
+  { intros He. exact (count_captures_nonames is_word_char to_lower simple_fold cat_in cat_name mco o p tb He EC). }
+  assert (S0 : exists cs, Sim is_word_char to_lower simple_fold cat_in cat_name mco stF (useE o) cs st0 p).
+  { exists (mkCS c_init o [] false). constructor; cbn [st0 ms_o ms_os ms_ign ms_autocap cs_o cs_os cs_ign cs_c]; auto.
     - apply oeqv_refl.
     - intros H; discriminate.
     - apply cinv_init.
-    - exists (S (length p)). exact EL. }
+    - exists (S (length p)). exact EL.
+    - intros _. apply EN_init. }
   assert (E0 : einv st0) by (intros H; discriminate).
-  destruct (sim_loop is_word_char to_lower simple_fold participates cat_in cat_name HW HD mco stF tb HF2 (t_caps tb) IN Hslot Hname
+  destruct (sim_loop is_word_char to_lower simple_fold participates cat_in cat_name HW HD mco stF tb HF2 (t_caps tb) IN (useE o) HF3 Hslot Hname
               (S (length p)) st0 p false st I0 O0 eq_refl E0 S0 ELP) as [IvF [OF [EF GF]]].
   destruct (ms_stack st); [|discriminate].
   destruct (add_group cat_in st) as [st'| | | |] eqn:EG; cbn [pbind] in ES; try discriminate.
